@@ -10,13 +10,6 @@ open Ucan Ucan.GoM
 
 variable {D C S : Type} [DecidableEq D]
 
-theorem toDlg_sub_ne (undef sub : D) (pol) (g : Gen.DlgTok D S) (hs : sub ≠ undef) :
-    ((toDlg undef pol g).sub ≠ some sub) ↔ g.subject ≠ sub := by
-  unfold toDlg
-  by_cases h : g.subject = undef
-  · simp [h]; exact fun e => hs e.symm
-  · simp [h]
-
 /-- the alignment loop of `verifyProofs` from position `k`: it fails exactly where the model's `proofLoop`
 fails, with the same error class, and otherwise runs to the end of the proof list (no panic: every
 `delegations[i]` is in range because one delegation was loaded per proof CID; no fuel exhaustion) -/
